@@ -146,7 +146,7 @@ def monitor(h, g, which):
                 if sid is not None:
                     w.members.setdefault(lc, {})[lower_nick(split_prefix(pfx)[0])] = sid
             if which == "C12":
-                bad = check_c12(w, actor, actor_is_server, icmd, pfx, cmd, params, rcs, services, msgs)
+                bad = check_c12(w, actor, actor_is_server, icmd, pfx, cmd, params, rcs, services, msgs, inp)
                 if bad:
                     return j, "c12:" + bad[0], "%s — output %r to %s (input %r from session %d)" % (bad[1], data[:100], sorted(rcs), text[:80], actor)
             else:
@@ -317,7 +317,7 @@ def update_world(w, actor, icmd, inp, pfx, cmd, params, rcs):
                 (s.add if adding else s.discard)(ch)
 
 
-def check_c12(w, actor, actor_is_server, icmd, pfx, cmd, params, rcs, services, msgs):
+def check_c12(w, actor, actor_is_server, icmd, pfx, cmd, params, rcs, services, msgs, inp=None):
     live = lambda ids: {i for i in ids if i not in w.dead}
     non_svc = rcs - services
     is_numeric = len(cmd) == 3 and cmd.isdigit()
@@ -351,6 +351,13 @@ def check_c12(w, actor, actor_is_server, icmd, pfx, cmd, params, rcs, services, 
         allowed = {actor} | services
         if actor_is_server and icmd in ("SVSJOIN",):
             allowed |= set(w.nick_sid.values())
+            # the subject may be a session that has only sent NICK so far: it holds the nickname, but nothing it ever
+            # received or caused shows that to an observer of the output (like a pseudo-client, its ownership is not
+            # observable), so one recipient the monitor cannot name is tolerated for a nick it does not know
+            target = inp[2][0] if inp and len(inp) > 2 and inp[2] else None
+            unknown = rcs - allowed
+            if target is not None and lower_nick(target) not in w.nick_sid and len(unknown) == 1 and not (unknown & w.dead):
+                allowed |= unknown
         if not rcs <= allowed:
             return ("numeric", "numeric %s delivered to %s, caused by session %d" % (cmd, sorted(rcs - allowed), actor))
     elif cmd == "ERROR":
